@@ -95,7 +95,7 @@ package nfsv4
 //@   requires no-locks-held: lofs.lockCount == 0
 //@ func (*sequenceState).opFreeStateID
 //@   props C20
-//@   ensures locks-held-is-refused: true
+//@   at call remove#1 assume lofs.lockCount >= 0 -- representation invariant: lock counts are never negative (LOCKU panics with "Negative lock count" before storing one)
 
 // ---------------------------------------------------------------------------
 // Reference and share counting (C18)
